@@ -116,6 +116,13 @@ def checkWith {σ : Type} (m0 : σ) (mstep : σ → Ev → Option σ) (sc : Driv
   for ln in sc.lines do
     i := i + 1
     if ln.kind == '?' && ln.toks == ["idle"] then idleNext := true
+    -- "? blocked <ms>": a PollOne of the script's top level stayed inside the poller that long beyond what its callbacks slept
+    -- (PollOne "will return immediately in case there is no event to process"; a timer that is due meanwhile cannot fire)
+    match ln.kind, ln.toks with
+    | '?', ["blocked", ms] =>
+      let d := s!"key=loop.poll-blocked event=[{ln.raw}] PollOne blocked the loop for {ms} ms inside the poller"
+      if res.specFail.isNone then res := { res with specFail := some (i, d) } else res := { res with more := res.more ++ [d] }
+    | _, _ => pure ()
     if ln.kind == '<' then
       match ln.toks with
       | "ret" :: r :: e :: _ =>
